@@ -30,7 +30,16 @@ type Call struct {
 	AllOcc []*model.Sel
 }
 
+// TypeCall is one expected runtime-type decision for an abstract position.
+type TypeCall struct {
+	Path           []interface{}
+	Abstract       string
+	ViaResolveType bool
+}
+
 type Result struct {
+	TypeCalls []TypeCall
+	Vars      map[string]interface{} // coerced variable values
 	Data     interface{} // nil (data: null) or map[string]interface{}
 	Errors   []ExecErr
 	Calls    []Call
@@ -77,6 +86,7 @@ func Execute(s *model.Schema, d *model.Doc, opName string, inputs map[string]*mo
 		res.ReqError = "no root type for " + op.Kind
 		return res
 	}
+	res.Vars = vars
 	e := &exec{s: s, d: d, vars: vars, w: w, res: res}
 	data, prop := e.selSet(root, nil, [][]*model.Sel{op.Sel}, nil)
 	if prop {
@@ -328,6 +338,7 @@ func (e *exec) complete(t model.TypeRef, raw interface{}, g *group, path []inter
 				}
 			}
 		}
+		e.res.TypeCalls = append(e.res.TypeCalls, TypeCall{Path: append([]interface{}(nil), path...), Abstract: t.Name, ViaResolveType: td.HasResolveType})
 		if rt == "" || e.s.Kind(rt) != model.KObject || !e.s.IsPossible(t.Name, rt) {
 			e.err(path, "runtimetype")
 			return nil, false
